@@ -123,12 +123,12 @@ CLAIMED["C01"] = ("Proof (deductive, every reply the AMF may send, every configu
 CLAIMED["C02"] = ("Proof (deductive, every reply, every UE state, every UE count and repetition count) in three layers. "
   "(1) main() in test mode (argument vector [_, -t], any configuration): loop invariants len(ueList) = len(pduList) = number of registrations done; every ueList[i] / pduList[i] is in range; "
   "the number of establishments is at most the number of registered UEs, the numbers of service requests and releases at most the number of establishments, the number of deregistrations at most the number of registered UEs "
-  "(so no procedure is attempted for a UE whose prerequisite loop did not reach it), for counts larger than the number of UEs and for negative counts; stgutg.Min proved. "
+  "(so no procedure is attempted for a UE whose prerequisite loop did not reach it), for counts larger than the number of UEs and for negative counts; repetition i of establishment, service request, release and deregistration is run for element i of the UE list (and of the stored-PDU list) — call-site obligations; stgutg.Min proved. "
   "(2) Each procedure (EstablishPDU, ServiceRequest, ReleasePDU, DeregisterUE) at driver level over ghost logs written by the contracts of the callees: exactly the NGAP messages of the procedure in order, each with the UE's own AMF-UE-NGAP-ID and RAN-UE-NGAP-ID; "
   "one PDU session identity in 1..15 in the NAS request, the release complete and the NGAP response; every protected NAS message uses header type 2 and the stored uplink COUNT, which ends one higher; exit through ManageError only after a fault; the S-NSSAI handed to the establishment request and the release complete is the configured (sst, sd), the GTP address of the setup responses is the configured one, the deregistration request carries the SUCI of the UE's SUPI (cases ids2 / ids3), the octets handed to the extractors of C12 are the NAS-PDU and the transfer of the first item of the third IE of the decoded PDU SESSION RESOURCE SETUP REQUEST (EncodeNasPduWithSecurity proved against NASEncode's contract) — no COUNT is used twice before 2^24 messages. "
   "(3) Relational lemma: establishment, service request and release run one after the other on one UE use the same PDU session identity in all six places. "
   "The check also runs the contracts it composes: C06 (envelope, COUNT), C12 (UE address / TEID / UPF address extraction), C13 (NGAP builders and wire form).",
-  "NOT decided: traffic mode of main() (blocks on a channel; XDP packages), acceptance by a reference AMF/SMF (no peer is run), NAS message contents (constructors assumed: they record what they were asked to build), that loop k of main passes element i (and not another element) is read off the index obligations only. "
+  "NOT decided: traffic mode of main() (blocks on a channel; XDP packages), acceptance by a reference AMF/SMF (no peer is run), NAS message contents (constructors assumed: they record what they were asked to build), which registration produced element i of the lists (list elements are unknown but fixed values per index). "
   "Assumed: elements of the UE list are non-nil (no element invariants for lists of symbolic length), the procedures return or end the process (their `returns` case), COUNT wrap after 2^24 protected messages is not excluded by the code and not claimed. "
   "Found and repaired under this check: the session identity was the last four SUPI digits, truncated differently in NAS and NGAP (fix commit in /repo).",
   "DESIGN.md §I.2 C02")
